@@ -470,12 +470,25 @@ def run_c02(tier):
     return check.finish()
 
 
+DESIGN_INV = ["Once", "NeverFreeAndUsed", "Across", "CountLE", "Compat", "NoBondOnZero", "EqualOrder", "DedicatedComplete",
+              "Maximal"]
+DESIGN_CONSTS = {"quick": [dict(MaxNodes=2, Orders="Ord012", TemplateNames="TN6"), dict(MaxNodes=3, Orders="Ord12", TemplateNames="TN3")],
+                 "thorough": [dict(MaxNodes=3, Orders="Ord012", TemplateNames="TN6")]}
+
+
+def design_model(check, tier):
+    """ResolveDesign.tla: every pairing of every bounded configuration; C03 clauses as invariants of the design"""
+    for i, consts in enumerate(DESIGN_CONSTS[tier]):
+        mc.run(check, "ResolveDesign", "rd%d" % i, consts, DESIGN_INV, emit=None, timeout=3000, xmx="12g")
+
+
 def run_c03(tier):
     check, recs, verdicts = _config_check("C03", tier, CFG_RULE.format(n=3 if tier == "quick" else 4) +
                                           "; non-trivial = at least one inter-fragment bond in the result",
                                           only=lambda r, v: v.get("checked"),
                                           nontrivial=lambda r, v: any(e[3] for e in r["obs"]["fine"]["edges"]))
     check.extra["dedicated_configs"] = sum(1 for v in verdicts if v.get("dedicated"))
+    design_model(check, tier)
     return check.finish()
 
 
